@@ -923,8 +923,10 @@ def explore_threads(prop, tier, rep, names, bound, cap):
             if extra:
                 rep.violation('tie_%s' % name, {'property': prop, 'kind': 'correspondence-broken',
                                                 'no_longer_checks': 'outcomes of the real code under the explored schedules are outcomes of the protocol model FB.Conc.%s' % proto[0],
-                                                'scenario': name, 'real_only_outcomes': sorted(extra), 'model_outcomes': sorted(mo)},
-                              note='real outcome(s) %s not reachable in the model %s' % (sorted(extra), proto[0]), no_input=True)
+                                                'scenario': name, 'real_only_outcomes': sorted(extra), 'model_outcomes': sorted(mo),
+                                                'failing_schedules': [f for f in fails if core.match_known(prop, None, [f]) is None][:3]},
+                              note='real outcome(s) %s not reachable in the model %s' % (sorted(extra), proto[0]),
+                              no_input=not any(core.match_known(prop, None, [f]) is None for f in fails))
             rep.count('traces_validated_against_model', n)
         total += n
         edges |= set(tuple(x) for x in e)
